@@ -56,7 +56,7 @@ struct TestServer : public SocketServer
 	{
 		if (stopReturned) { std::lock_guard<std::mutex> lk(mu); lateServes++; }
 		String line;
-		if (client.waitInput(1.0)) line = client.readLine();
+		if (client.waitInput(4.0)) line = client.readLine();
 		std::string tok(*line, line.length());
 		while (!tok.empty() && (tok[tok.size() - 1] == '\r' || tok[tok.size() - 1] == '\n')) tok.erase(tok.size() - 1);
 		{
@@ -107,19 +107,25 @@ static std::string runScenario(bool seq, bool unixSock, int nclients, const std:
 	std::vector<int> sent(nclients, 0);
 	std::vector<std::thread> cl;
 	for (int k = 0; k < nclients; k++) {
-		int delayUs = 0;
+		int delayUs = 0, holdUs = 0;
 		bool early = false;
 		unsigned r;
 		{ std::lock_guard<std::mutex> lk(gmu); r = jrnd(); }
 		if (pattern == "trickle") delayUs = (int)(r % (unsigned)(stopMs * 1200 + 1));
+		else if (pattern == "slow") {
+			// the first clients connect just before stop() and keep their handler inside serve() well beyond it
+			if (k < 2) { delayUs = stopMs > 3 ? (stopMs - 3) * 1000 : 0; holdUs = 1500000 + (int)(r % 1500000); }
+			else delayUs = (int)(r % (unsigned)(stopMs * 1000 + 1));
+		}
 		else if (pattern == "mixed") { delayUs = (r & 1) ? 0 : (int)((r >> 3) % (unsigned)(stopMs * 1500 + 1)); early = ((r >> 1) % 5 == 0); }
-		cl.push_back(std::thread([k, delayUs, early, unixSock, port, &path, &replies, &sent]() {
+		cl.push_back(std::thread([k, delayUs, holdUs, early, unixSock, port, &path, &replies, &sent]() {
 			if (delayUs) usleep(delayUs);
 			String tok = String("c") + String(k);
 			if (unixSock) {
 				LocalSocket s;
 				if (!s.connect(path)) return;
 				if (early) { s.close(); return; }
+				if (holdUs) usleep(holdUs);
 				s << tok + "\n";
 				sent[k] = 1;
 				if (s.waitInput(3.0)) { String l = s.readLine(); replies[k] = std::string(*l, l.length()); }
@@ -129,6 +135,7 @@ static std::string runScenario(bool seq, bool unixSock, int nclients, const std:
 				Socket s;
 				if (!s.connect("127.0.0.1", port)) return;
 				if (early) { s.close(); return; }
+				if (holdUs) usleep(holdUs);
 				s << tok + "\n";
 				sent[k] = 1;
 				if (s.waitInput(3.0)) { String l = s.readLine(); replies[k] = std::string(*l, l.length()); }
